@@ -48,6 +48,13 @@ CHECKS = [
         "text": "Decides the structural conditions of the launch property: inspection and runtime normalise and hash the same representation of the run-space block with the same options/prefix; after emit_start every exit passes exactly one emit_end with planned = len(runs) and completed = a counter incremented once per iteration after process returned, status set on failure; each run's context is a fresh mapping built in the loop from the shared --context plus that run's values, metadata carries a copy, the 0-based index and the launch FK and is cleared after the run; execute forwards the four linkage fields and never mutates the caller-owned canonical spec; explicit / idempotent / generated launch ids use exactly their documented inputs; inputs id covers spec id and every file digest.",
         "note": "Assumes yaml.safe_load/asdict determinism and that emitter/driver calls do not raise. 'Run i equals a standalone run' is not decided (needs execution); only the no-leak conditions are.",
     },
+    {
+        "property_id": "C13",
+        "design_ref": "DESIGN.md section 3, C13",
+        "technique": "static analysis: classification of every store of the ingest methods into commutative merge forms, truth-table extraction of the verdict if/elif chains over their boolean atoms, set-difference direction and guard checks",
+        "text": "Decides order-independence structurally: every attribute/subscript store of the five _ingest_* methods is create-if-absent (aggregate constructed from its key only), flag, min/max with None alternative, set add, counter, assign-if-present from a unique-per-key record, or last-writer from a SER; verdict list fields are sorted, finalisation writes only idempotent min/max fall-backs; the run and launch verdict chains are expanded to full truth tables (8 and 32 rows) and agree with the documented table on all rows a trace prefix can produce; problems name exactly the missing edge; missing = expected - observed and orphan = observed - expected are computed whenever the canonical spec is known; roll-up counts every run's own verdict.",
+        "note": "Assumes the producer invariant (at most one lifecycle record per key, one SER per started node - C06/C09 structurally) under which unique-per-key and last-writer stores commute. That real prefixes produce these atoms is not decided here.",
+    },
 ]
 _TODO = "check not built yet in this session (planned: DESIGN.md section 3); not claimed until its rules run clean and fire on their variants"
 NOT_APPLICABLE = [
